@@ -6,7 +6,7 @@
 (* Universe.  Terms 1..4 = T1, T1' (T1's name, another label), T1'' (T1's  *)
 (* label, another name), T2, without URI; terms 5..7 with a URI (equal URI *)
 (* and different name; equal name and different URI);                      *)
-(* values 1..3 = a, b, c; universe tags 1..15 =                            *)
+(* values 1..5 = "a", "b", "c", "a ", " a"; universe tags 1..17 =          *)
 (* UTag[u] = <<term, value>>.  Two tags are equal iff they are the same    *)
 (* universe tag (the binder builds them from this table, always as fresh   *)
 (* objects).  Python indices are 0-based: vocabulary position k <-> k - 1. *)
@@ -37,8 +37,11 @@ TermLabel == <<"l1", "l2", "l1", "l3", "l4", "l4", "l4">>
 TermUri   == <<"", "", "", "", "u1", "u1", "u2">>
 UTag == << <<1, 1>>, <<1, 2>>, <<2, 1>>, <<3, 1>>, <<4, 1>>, <<4, 2>>,
            <<2, 2>>, <<3, 2>>, <<1, 3>>, <<2, 3>>, <<3, 3>>, <<4, 3>>,
-           <<5, 1>>, <<6, 1>>, <<7, 1>> >>          \* 13..15: tags on the URI-bearing terms
+           <<5, 1>>, <<6, 1>>, <<7, 1>>,            \* 13..15: tags on the URI-bearing terms
+           <<1, 4>>, <<1, 5>> >>                    \* 16, 17: T1 with the values "a " and " a" (value 1 = "a")
 UriTags == {1, 13, 14, 15}
+WsTags  == {1, 2, 16, 17}                           \* values that differ only by surrounding whitespace are different values
+StripVal == <<1, 2, 3, 1, 1>>                       \* what value.strip() would make of values 1..5
 NU == Len(UTag)
 
 (* ------------------------------ Req: encoding ------------------------------ *)
@@ -116,7 +119,7 @@ ClassNames == <<"Term", "Tag", "Feature", "Note", "SoundEvent", "SoundEventAnnot
 FieldDom == << <<2, 2, 2, 2, 3, 2>>,   \* Term: name, label, definition, an extra attribute present or not,
                                        \*       uri (none, u1, u2), comment (none, given)
                <<7, 2>>,          \* Tag: term (T1, T1', T1'', T2, T5, T6, T7), value
-               <<7, 3>>,          \* Feature: term, value (0.0, -0.0, 0.5)
+               <<7, 5>>,          \* Feature: term, value (0.0, -0.0, 0.5, float("nan"), numpy.nan)
                <<2, 2, 2, 2>>,    \* Note: uuid, message, is_issue, created_on
                <<2, 2, 2, 2>>,    \* SoundEvent: uuid, geometry, recording, features
                <<2, 2, 2, 2>>,    \* SoundEventAnnotation: uuid, sound_event, tags, notes
@@ -128,19 +131,24 @@ Vectors(dom, k) == IF k > Len(dom) THEN {<<>>}
 Objects(cls) == Vectors(FieldDom[cls], 1)
 \* model equality = all declared fields equal (Feature value: 0.0 and -0.0 are the same number)
 Norm(cls, x) == IF cls = 3 /\ x[2] = 2 THEN <<x[1], 1>> ELSE x
-ModelEq(cls, x, y) == Norm(cls, x) = Norm(cls, y)
+\* NaN is not equal to itself, so a Feature holding NaN equals no other Feature object (not even one built alike)
+IsNaN(cls, x) == cls = 3 /\ x[2] \in {4, 5}
+ModelEq(cls, x, y) == ~IsNaN(cls, x) /\ ~IsNaN(cls, y) /\ Norm(cls, x) = Norm(cls, y)
 DiffCount(x, y) == Cardinality({f \in DOMAIN x : x[f] # y[f]})
 \* control "uri": a Term.__eq__ that takes two terms with the same (present) URI for equal, whatever their names
 UriOf(cls, x) == IF cls = 1 THEN (IF x[5] = 1 THEN "" ELSE IF x[5] = 2 THEN "u1" ELSE "u2") ELSE TermUri[x[1]]
+\* control "nan_equal": a Feature.__eq__ that takes two same-term features for equal when both values are NaN
 EqUnder(mode, cls, x, y) ==
-    IF mode = "uri" /\ cls <= 3 /\ UriOf(cls, x) # "" /\ UriOf(cls, x) = UriOf(cls, y)
+    IF mode = "nan_equal" /\ IsNaN(cls, x) /\ IsNaN(cls, y) THEN x[1] = y[1]
+    ELSE IF mode = "uri" /\ cls <= 3 /\ UriOf(cls, x) # "" /\ UriOf(cls, x) = UriOf(cls, y)
     THEN (cls = 1 \/ Norm(cls, x)[2] = Norm(cls, y)[2])
     ELSE ModelEq(cls, x, y)
 \* the projection the code hashes ("code"), and two variants used as controls of the law below
 HashKey(mode, cls, x, who) ==
     CASE mode = "identity" -> <<who>>                                   \* id(self): never equal for two objects
       [] mode = "code" /\ cls = 1 -> <<x[1]>>                            \* Term: name
-      [] mode = "code" /\ cls \in {2, 3} -> <<TermName[x[1]], Norm(cls, x)[2]>>   \* (hash(term) = hash(name), value)
+      [] mode = "code" /\ cls \in {2, 3} /\ ~IsNaN(cls, x) -> <<TermName[x[1]], Norm(cls, x)[2]>>   \* (hash(name), value)
+      [] mode = "code" /\ IsNaN(cls, x) -> <<TermName[x[1]], 0, who>>          \* hash(nan) is the identity of the float object
       [] mode = "code" /\ cls > 3 -> <<x[1]>>                             \* uuid
       [] mode = "label" /\ cls = 1 -> <<x[2]>>                            \* a different but sound hash
       [] OTHER -> <<>>                                                    \* constant hash: sound too
